@@ -193,6 +193,9 @@ def _joined_children(P, C, f: Func, depth=0):
                 src_attr = it.attr
             elif isinstance(it, ast.Name) and it.id in f.params:
                 src_attr = "@" + it.id
+            elif isinstance(it, (ast.Tuple, ast.List)) and it.elts and all(
+                    isinstance(x_, ast.Attribute) and dotted(x_.value) == e for x_ in it.elts):
+                src_attr = tuple(x_.attr for x_ in it.elts)      # for b in (expr.then, expr.else_)
             if src_attr is None:
                 continue
             v = lp.target.id
@@ -216,7 +219,10 @@ def _joined_children(P, C, f: Func, depth=0):
     for r in rets:
         v = r.value
         if isinstance(v, ast.Name) and v.id in acc:
-            out.add(acc[v.id])
+            if isinstance(acc[v.id], tuple):
+                out.update(acc[v.id])
+            else:
+                out.add(acc[v.id])
         for x in ast.walk(v):
             if isinstance(x, ast.Call) and dotted(x.func) == "unify":
                 for a_ in x.args:
@@ -372,6 +378,7 @@ def _total(run, P):
     C = P.cls(f"{DATA}.KindInferenceMapper")
     n = 0
     seen = set()
+    unknown = []
     for name, f in sorted(C.methods.items()):
         if not name.startswith("map_") or f in seen:
             continue
@@ -394,10 +401,27 @@ def _total(run, P):
             if r.value is None:
                 continue
             ok = _kind_expr_ok(r.value, f)
+            if not ok and not isinstance(r.value, (ast.Constant, ast.Tuple, ast.List, ast.Dict, ast.Set,
+                                                   ast.JoinedStr, ast.Compare, ast.BoolOp)):
+                v = r.value
+                if isinstance(v, ast.Name):
+                    # a local that accumulates kinds: every value it is given is a kind
+                    # expression, None to start with, or comes out of a helper
+                    vals = [s_.value for s_ in ast.walk(f.node) if isinstance(s_, ast.Assign)
+                            and any(isinstance(t_, ast.Name) and t_.id == v.id for t_ in s_.targets)]
+                    if vals and all(_kind_expr_ok(x_, f) or (isinstance(x_, ast.Constant)
+                                                             and x_.value is None) for x_ in vals):
+                        ok = True
+                if not ok:
+                    unknown.append(f"{name}: {norm(r)}")
+                    continue
             run.ob("C09.total", f, r, ok,
                    construct=f"{name}: {norm(r)}",
                    why="the returned expression is not a kind (constructor, "
                        "unify, recursion, table lookup)")
+    if unknown:
+        raise AnalysisError(f"kind handlers return values of a form this clause does not read: "
+                            f"{unknown[0]}" + (f" (and {len(unknown) - 1} more)" if len(unknown) > 1 else ""))
 
 
 def _tuple_len(e):
@@ -671,6 +695,13 @@ def _same_tree(run, P):
             stored = x.value
     flat_at_construction = isinstance(stored, ast.Call) and dotted(stored.func) in ("flatten",
                                                                                     "pymbolic.flatten")
+    if sites and not flat_at_construction and isinstance(stored, ast.Name) and any(
+            isinstance(x, ast.Call) and dotted(x.func) in ("flatten", "pymbolic.flatten")
+            for x in ast.walk(A.node)):
+        # the constructor flattens on some of its paths (skipping the walk for a value it
+        # knows to be flat already, say): which paths is not decided by this clause
+        raise AnalysisError("Assign.__init__ flattens the right-hand side on some paths only; "
+                            "not decided")
     if not sites and not flat_at_construction:
         run.ob("C09.same_tree", F, F.node, True,
                construct="neither inference nor Assign.__init__ flattens", why="same tree")
